@@ -52,6 +52,9 @@ RULE = ("scenarios = ArchiveBuilder::build V1-V4 x {dest absent, dest present (o
         "Runs whose fault did not fire in the window are inconclusive, never held. exhaustive (thorough) refers to the single-fault space of these 18 scenarios at this seed: "
         "every call of the window x 3 modes and every byte limit x 2 dispositions.")
 ASSUME = [
+    "C-API scenarios (ffi-create-*: SFileCreateArchive + SFileCloseArchive, worker vh-ffi/c12_ffi) are build + open of the result: a reported failure after a completed build (the open failed) leaves the complete "
+    "new archive, which the two-state clause allows; 'an error leaves the destination untouched' is judged for ArchiveBuilder::build only",
+    "destination layouts '+symlink' (a symbolic link to the previous archive) and '+tmpname' (a file name ending in .tmp) are judged at the same path: what the path resolves to afterwards",
     "power-loss semantics are out of reach: there is no fsync before the rename, but page-cache loss cannot be produced by process faults, and the statement speaks of process death and I/O errors only",
     "fault points are single faults at every call of the fault-free path, plus two-fault sequences (error at k, then kill / EIO at a later call of the error path that follows); a second fault on the same "
     "syscall name as the first cannot be expressed with strace's one-rule-per-syscall injector and is left out (counted); longer sequences are not explored",
@@ -87,6 +90,8 @@ def all_scenarios():
     out += ["compact-v1", "compact-v4", "compact-v1-pending", "compact-v2-pending"]
     # other shapes of the destination path ("<scenario>+<layout>"): a symbolic link to the previous archive; a file name that
     # itself ends in .tmp (a working copy) - the same operations, judged at the same path
+    # the C API's way of creating an archive (worker vh-ffi/c12_ffi): creation dispositions over an existing / an absent destination
+    out += ["ffi-create-always", "ffi-create-truncate", "ffi-create-new", "ffi-create-truncate+symlink"]
     out += ["build-v1-present-small+symlink", "build-v4-present-small+symlink", "compact-v1+symlink", "build-v2-present-small+tmpname", "compact-v1+tmpname", "compact-v2-pending+tmpname"]
     return out
 
@@ -115,6 +120,8 @@ def place_dest(sc, d):
 
 def _sc_fields(name):
     p = name.split("-")
+    if p[0] == "ffi":
+        return {"op": "build", "ver": 2, "present": p[2] != "new", "kind": "empty", "ffi": True}
     if p[0] == "build":
         return {"op": "build", "ver": int(p[1][1:]), "present": p[2] == "present", "kind": p[3]}
     return {"op": "compact", "ver": int(p[1][1:]), "present": True, "kind": "small"}
@@ -213,8 +220,9 @@ def _target(name, args, ret, fds):
 
 
 class Ctx:
-    def __init__(self, binpath, seed, scratch):
+    def __init__(self, binpath, seed, scratch, ffi_bin=None):
         self.bin = binpath
+        self.ffi_bin = ffi_bin
         self.seed = int(seed)
         self.scratch = scratch
         self.env = dict(os.environ)
@@ -223,8 +231,13 @@ class Ctx:
         self.env["RUST_BACKTRACE"] = "0"
         self.verify_cache = {}
 
+    def bin_for(self, sc_or_name):
+        n = sc_or_name if isinstance(sc_or_name, str) else sc_or_name.get("base", sc_or_name["name"])
+        return self.ffi_bin if n.startswith("ffi-") else self.bin
+
     def worker(self, args, cwd, timeout=60):
-        return subprocess.run([self.bin, "--seed", str(self.seed)] + args, cwd=cwd, env=self.env, stdout=subprocess.PIPE, stderr=subprocess.PIPE,
+        name = args[args.index("--scenario") + 1] if "--scenario" in args else ""
+        return subprocess.run([self.bin_for(name), "--seed", str(self.seed)] + args, cwd=cwd, env=self.env, stdout=subprocess.PIPE, stderr=subprocess.PIPE,
                               text=True, errors="replace", timeout=timeout)
 
     def verify(self, sc, path, digest):
@@ -248,7 +261,7 @@ def strace_cmd(ctx, sc, dest, log=None, inject=None):
     cmd += ["-e", "trace=" + ",".join(SET) + ",access"]
     if inject:
         cmd += ["-e", "inject=" + inject]
-    cmd += [ctx.bin, "--seed", str(ctx.seed), "--scenario", sc.get("base", sc["name"]), "--variant", sc.get("variant", "full"), "--dest", dest]
+    cmd += [ctx.bin_for(sc), "--seed", str(ctx.seed), "--scenario", sc.get("base", sc["name"]), "--variant", sc.get("variant", "full"), "--dest", dest]
     return cmd
 
 
@@ -352,7 +365,7 @@ def run_point(ctx, sc, pt, keep=False):
             log = os.path.join(rd, "strace.log")
             what2 = "signal=KILL" if pt["mode2"] == "kill" else f"error={pt['mode2']}"
             cmd = strace_cmd(ctx, sc, dest, log=log, inject=f"{pt['name']}:error={pt['mode1']}:when={pt['ord']}")
-            i = cmd.index(ctx.bin)
+            i = cmd.index(ctx.bin_for(sc))
             cmd[i:i] = ["-e", f"inject={pt['name2']}:{what2}:when={pt['ord2']}"]
             p = subprocess.run(cmd, cwd=rd, env=ctx.env, stdout=subprocess.PIPE, stderr=subprocess.PIPE, text=True, errors="replace", timeout=60)
             logtext = open(log, errors="replace").read() if os.path.exists(log) else ""
@@ -476,7 +489,10 @@ def judge(sc, st, state):
     had_old = bool(sc["old"])
     allowed_state = state == "new-complete" or (state == "old" and had_old) or (state == "absent" and not had_old)
     unchanged = (state == "old") if had_old else (state == "absent")
-    if st == "BUILD-ERR" and sc["op"] == "build" and not unchanged:
+    # (SFileCreateArchive = build + open of the result: it can report failure after a *completed* build - the open failed -, which
+    # leaves the complete new archive behind; the statement's "a build that returns an error" is the build, so for the C-API
+    # scenarios only the two-state clause and "success means complete" are judged)
+    if st == "BUILD-ERR" and sc["op"] == "build" and not sc.get("ffi") and not unchanged:
         return "build-err-but-dest-changed"
     if st == "BUILD-OK" and state != "new-complete":
         return "build-ok-but-dest-incomplete"
@@ -546,7 +562,7 @@ def run(tier, seed, scratch, t0):
         if not shutil.which(tool):
             raise sup.Broken(f"{tool} not found")
     binpath = sup.build("vh-mpq", "c12")
-    ctx = Ctx(binpath, seed, scratch)
+    ctx = Ctx(binpath, seed, scratch, ffi_bin=sup.build("vh-ffi", "c12_ffi"))
     res = sup.Result(PROP)
     names = all_scenarios()
     with ThreadPoolExecutor(max_workers=sup.NCPU) as ex:
@@ -662,7 +678,7 @@ def replay(rp, scratch):
     """Re-execute exactly the recorded (scenario, k, mode) or (scenario, size limit, mode) point."""
     r = rp["replay"]
     binpath = sup.build("vh-mpq", "c12")
-    ctx = Ctx(binpath, r["seed"], scratch)
+    ctx = Ctx(binpath, r["seed"], scratch, ffi_bin=sup.build("vh-ffi", "c12_ffi"))
     sc = prepare(ctx, r["scenario"])
     if sc.get("failed"):
         print(f"REPLAY scenario {r['scenario']} could not be prepared: {sc['failed']}")
